@@ -1,7 +1,136 @@
-(* C13 — a time-domain program means its explicit loop, however it is unrolled. *)
+(* C13 — a time-domain program means its explicit loop, however it is unrolled.
+   Only statements, each closed by `exact`, each followed by its axiom audit, plus Examples showing
+   the hypotheses are satisfiable.  Model: coq/C13/Model.v (tied to strawberryfields/tdm/program.py by
+   the correspondence run of tools/props/c13.py).
+
+   Reading guide.  `unroll_program N sh space T cs shots q` is TDMProgram._unroll_program on register q;
+   `loop_program N T cs shots` is the loop written out by hand with the fresh mode (band, pulse) for
+   every pulse; `rho N` maps pulse (b, j) to register reference start_b + j mod N_b.
+   `plain_cmd c` = no dagger, no select, no non-atomic symbolic parameter, rebuildable class: the
+   excluding hypothesis forced by the defects recorded in known_findings.d/C13.json (each one has a
+   `_refuted` theorem below). *)
 From Coq Require Import List ZArith Bool Arith.
+Import ListNotations.
 From SFV Require Import C13.Model C13.Proofs C13.Machine C13.Layout.
 
-Theorem C13_shift_by_zero : forall A (l : list A), shift_by l 0 = l.
-Proof. exact shift_by_0. Qed.
-Print Assumptions C13_shift_by_zero.
+(* 1. register shifting (default shift, any number of bands, any band sizes, time bins, shots,
+      parameter arrays): the unrolled circuit is, command by command, the image of the explicit loop. *)
+Theorem C13_shift_refines_loop :
+  forall (N : list nat) (T : nat) (cs : list rcmd),
+    Forall (fun c => plain_cmd c = true) cs ->
+    Forall (fun c => Forall (fun r => r < sum_list N) (r_regs c)) cs ->
+    forall shots : nat,
+    unroll_program N ShDefault false T cs shots (seq 0 (sum_list N))
+    = Some (map (rename (rho N)) (loop_program N T cs shots)).
+Proof. exact shift_refines_loop. Qed.
+Print Assumptions C13_shift_refines_loop.
+
+(* 2. two different pulses renamed to the same register reference are used in disjoint ordered
+      windows of bins, separated by bin j in which the earlier pulse (b, j) sits at the leading position
+      of its band (where the property's hypothesis says it is measured, as the last command on it). *)
+Theorem C13_reuse_separated :
+  forall (N : list nat) (c c' : rcmd) (g g' b j j' : nat),
+    Forall (fun r => r < sum_list N) (r_regs c) ->
+    Forall (fun r => r < sum_list N) (r_regs c') ->
+    In (b, j) (pulse_modes N c g) -> In (b, j') (pulse_modes N c' g') ->
+    j < j' -> rho N (b, j) = rho N (b, j') ->
+    g <= j /\ j < g'.
+Proof. exact reuse_separated. Qed.
+Print Assumptions C13_reuse_separated.
+
+(* 3. integer shift s <= n of the whole n-mode register: image of the loop in which position o at
+      bin g holds pulse o + s*g, under j |-> j mod n. *)
+Theorem C13_shift_int :
+  forall (N : list nat) (n s T : nat) (cs : list rcmd),
+    s <= n ->
+    Forall (fun c => plain_cmd c = true) cs ->
+    Forall (fun c => Forall (fun r => r < n) (r_regs c)) cs ->
+    forall shots,
+    unroll_program N (ShInt (Z.of_nat s)) false T cs shots (seq 0 n)
+    = Some (map (rename (fun j => j mod n)) (loop_program_int s T cs shots)).
+Proof. exact shift_int_refines_loop. Qed.
+Print Assumptions C13_shift_int.
+
+(* 4. space unrolling of a single band for one shot IS the explicit loop (the looped-back filter never
+      fires), on the register of n + (T-1) modes that space_unroll allocates. *)
+Theorem C13_space_unroll :
+  forall (N : list nat) (sh : shiftspec) (n T : nat) (cs : list rcmd),
+    0 < n ->
+    Forall (fun c => plain_cmd c = true) cs ->
+    Forall (fun c => Forall (fun r => r < n) (r_regs c)) cs ->
+    unroll_program N sh true T cs 1 (seq 0 (n + (T - 1))) = Some (loop_program_int 1 T cs 1).
+Proof. exact space_unroll_is_loop. Qed.
+Print Assumptions C13_space_unroll.
+
+(* 5. after ANY history of unroll / space_unroll / roll / lock calls, roll() gives back the rolled
+      circuit, the original ACTIVE register, init_num_subsystems, empty caches, and does not touch the
+      lock flag.  _partial: "register exactly" (inactive leftovers) and "lock flag preserved by unroll"
+      are refuted below. *)
+Theorem C13_roll_restores_partial :
+  forall (N : list nat) (sh : shiftspec) (T : nat) (cs : list rcmd) (h : list call),
+    let st := run_calls N sh T cs (init_state N) h in
+    (st_circ (do_roll st) = CRolled /\ register (do_roll st) = seq 0 (concurr N) /\
+     st_init (do_roll st) = Z.of_nat (concurr N) /\
+     st_unrolled (do_roll st) = None /\ st_space (do_roll st) = None /\ st_shots (do_roll st) = None)
+    /\ st_locked (do_roll st) = st_locked st.
+Proof. exact roll_restores_active. Qed.
+Print Assumptions C13_roll_restores_partial.
+
+(* 6. sample layout.  Full statement (not proved for unbounded sizes): *)
+Definition C13_samples_layout_statement : Prop :=
+  forall N T shots, N <> [] -> Forall (fun n => 1 <= n) N -> 1 <= T ->
+    reshape_samples (raw_samples N T shots) (measured N) N T = Some (expected N T shots).
+(* proved by exhaustive evaluation for the sizes named in the statement *)
+Theorem C13_samples_layout_bounded_partial :
+  forall N T shots,
+    N <> [] -> length N <= 3 -> Forall (fun n => 1 <= n <= 4) N -> 1 <= T <= 5 -> 1 <= shots <= 3 ->
+    reshape_samples (raw_samples N T shots) (measured N) N T = Some (expected N T shots).
+Proof. exact samples_layout_bounded. Qed.
+Print Assumptions C13_samples_layout_bounded_partial.
+
+(* ---- refuted on the faithful model (each reproduced on the implementation, see known_findings.d/C13.json) *)
+Theorem C13_dagger_refuted : exists cs,
+  Forall (fun c => Forall (fun r => r < sum_list [2]) (r_regs c)) cs /\
+  unroll_program [2] ShDefault false 3 cs 1 (seq 0 2) <> Some (map (rename (rho [2])) (loop_program [2] 3 cs 1)).
+Proof. exact dagger_refuted. Qed.
+Print Assumptions C13_dagger_refuted.
+
+Theorem C13_expr_param_refuted : exists cs,
+  Forall (fun c => Forall (fun r => r < sum_list [2]) (r_regs c)) cs /\
+  unroll_program [2] ShDefault false 3 cs 1 (seq 0 2) = None.
+Proof. exact expr_refuted. Qed.
+Print Assumptions C13_expr_param_refuted.
+
+Theorem C13_space_shots_refuted : exists cs,
+  Forall (fun c => plain_cmd c = true) cs /\ Forall (fun c => Forall (fun r => r < 2) (r_regs c)) cs /\
+  unroll_program [2] ShDefault true 3 cs 2 (seq 0 (2 + (3 - 1))) <> Some (loop_program_int 1 3 cs 2).
+Proof. exact space_shots_refuted. Qed.
+Print Assumptions C13_space_shots_refuted.
+
+Theorem C13_roll_register_refuted : exists h,
+  st_regs (run_calls [2] ShDefault 3 ex_prog (init_state [2]) h) <> st_regs (init_state [2]) /\ last h Lock = Roll.
+Proof. exact roll_register_refuted. Qed.
+Print Assumptions C13_roll_register_refuted.
+
+Theorem C13_lock_refuted : exists h, In Lock h /\
+  st_locked (run_calls [2] ShDefault 3 ex_prog (init_state [2]) h) = false.
+Proof. exact lock_refuted. Qed.
+Print Assumptions C13_lock_refuted.
+
+Theorem C13_space_unroll_again_refuted : exists h,
+  let st := run_calls [2] ShDefault 3 ex_prog (init_state [2]) h in
+  (st_init st <= Z.of_nat (max_mode (st_circ st)))%Z.
+Proof. exact space_unroll_again_refuted. Qed.
+Print Assumptions C13_space_unroll_again_refuted.
+
+Theorem C13_space_reshape_refuted : exists n T,
+  reshape_samples (map (fun g => (g, [g])) (seq 0 T)) [0] [n] T = None.
+Proof. exact space_reshape_refuted. Qed.
+Print Assumptions C13_space_reshape_refuted.
+
+(* ---- the hypotheses are satisfiable *)
+Example C13_hyps_inhabited :
+  Forall (fun c => plain_cmd c = true) ex_prog /\
+  Forall (fun c => Forall (fun r => r < sum_list [2]) (r_regs c)) ex_prog /\
+  loop_program [2] 3 ex_prog 1 <> [].
+Proof. split; [repeat constructor|split; [repeat constructor|discriminate]]. Qed.
